@@ -424,12 +424,62 @@ class AMS(AM):
         return await AM.__aexit__(s, *exc)
 
 
+class AMI(AM):
+    """like AM, but __aenter__/__aexit__ are plain functions and the manager is its own awaitable iterator, written
+    as a plain class: awaiting it makes the interpreter call __next__ through the C iterator slot instead of resuming
+    a coroutine/generator frame inline.  (The code running below the exit is still a method of the manager, so its
+    first argument is the manager - the documented way the exiting manager's identity is recovered.)"""
+
+    def __aenter__(s):
+        s._phase = ("enter", None)
+        s._st = 0
+        return s
+
+    def __aexit__(s, *exc):
+        s._phase = ("exit", exc)
+        s._st = 0
+        return s
+
+    def __await__(s):
+        return s
+
+    def __iter__(s):
+        return s
+
+    def __next__(s):
+        rt = s.rt
+        phase, exc = s._phase
+        if phase == "enter":
+            if s._st == 0:
+                s._st = 1
+                rt.entering = s
+                rt.probe("aenter0")
+                return "aenter"
+            rt.probe("aenter1")
+            rt.entering = None
+            rt.active.append(s)
+            rt.log.append(("enter", s.i))
+            raise StopIteration(s)
+        if s._st == 0:
+            s._st = 1
+            rt.exiting = s
+            rt.log.append(("exit", s.i, exc[0] is not None))
+            rt.probe("aexit0")
+            return "aexit"
+        rt.probe("aexit1")
+        sw = rt.c() if exc[0] is not None else 0
+        rt.exiting = None
+        rt.active.remove(s)
+        rt.log.append(("exited", s.i, sw))
+        raise StopIteration(bool(sw))
+
+
 def _m_mixed(rt, i):
     return (M if i % 2 else MC)(rt, i)
 
 
 def _am_mixed(rt, i):
-    return (AM if i % 2 else AMS)(rt, i)
+    return (AMS, AM, AMI)[i % 3](rt, i)
 
 
 # managers alternate between the plain classes and the ones whose exit functions have unusual names
